@@ -110,7 +110,7 @@ Qed.
 Theorem model_signing_root_spec (index : N) :
   model_signing_root index = Some (spec_signing_root index).
 Proof.
-  unfold model_signing_root.
+  unfold model_signing_root, model_domain_const.
   destruct gen_constants as (-> & -> & -> & -> & ->).
   rewrite domain_eq by (vm_compute; reflexivity).
   rewrite gen_prog_BLSToExecutionChange, gen_prog_SigningData.
